@@ -31,7 +31,7 @@ ASSUMPTIONS = [
     "'system was Running in a tick' is read as: System State at the end of the previous tick (the state the tick starts in)",
     "Block Time / Scope Time are read with tag.get_value() (the value thresholds use)",
 ]
-TIERS = {"quick": {"examples": 1200, "budget_s": 100}, "thorough": {"examples": 60000, "budget_s": 1500}}
+TIERS = {"quick": {"examples": 6400, "budget_s": 100}, "thorough": {"examples": 60000, "budget_s": 1500}}
 EPS = 1e-9
 
 CFG = G.GenCfg(kinds={"mark": 3, "wait": 4, "block": 6, "watch": 1, "pause": 1, "hold": 1, "quick": 1, "blank": 1},
@@ -117,6 +117,7 @@ def run_case(case):
             gap = set()
             inc = float(step[1])
             fault_in_state = prev_state if (h.hw.fail_read or h.hw.fail_write) else None
+            fault_tick = h.hw.fail_read or h.hw.fail_write
             o = h.tick(inc)
             h.hw.fail_read = h.hw.fail_write = False      # a scripted hardware fault lasts one tick
             if fault_in_state == "Holding" and o.status == "Error":
@@ -169,9 +170,15 @@ def run_case(case):
                          % (o.no, inc, dp, prev_state))
                 if dp > EPS and abs(dp - inc) > 1e-6:
                     viol("process:delta", "tick %d: Process Time advanced by %r, increment was %r" % (o.no, dp, inc))
-                if prev_state == "Running" and o.state == "Running" and inc > 0 and abs(dp - inc) > 1e-6:
+                # progress laws: not judged in a tick with a scripted hardware fault (the error pause may begin before the clocks
+                # are updated and be ended by a queued Unpause in the same tick - the run was not Running throughout the tick)
+                if prev_state == "Running" and o.state == "Running" and inc > 0 and abs(dp - inc) > 1e-6 and not fault_tick:
                     viol("process:stalled-while-running", "tick %d: Running before and after, inc=%r but Process Time moved %r" % (o.no, inc, dp))
-                if dr > EPS and not run_active_prev:
+                if dr > EPS and prev_state == "Restarting":
+                    # the old run ends during the Restart; whether it still counts as active in the tick in which Restart stops
+                    # it is not fixed by the statement (Run Time is reset when the new run starts) - counted, not judged
+                    info["run_time_moved_while_restarting"] = info.get("run_time_moved_while_restarting", 0) + 1
+                elif dr > EPS and not run_active_prev:
                     viol("run:advance-while:%s" % prev_state, "tick %d: Run Time advanced by %r with no active run" % (o.no, dr))
                 if dr > EPS and abs(dr - inc) > 1e-6:
                     viol("run:delta", "tick %d: Run Time advanced by %r, increment was %r" % (o.no, dr, inc))
@@ -183,7 +190,7 @@ def run_case(case):
                         viol("decrease:Block Time", "tick %d: Block Time %r -> %r without block event" % (o.no, prev["Block Time"], cur["Block Time"]))
                     if db > EPS and abs(db - inc) > 1e-6:
                         viol("block:delta", "tick %d: Block Time advanced by %r, increment was %r" % (o.no, db, inc))
-                    if root_was_open and prev_state == "Running" and o.state == "Running" and inc > 0 and abs(db - inc) > 1e-6:
+                    if root_was_open and prev_state == "Running" and o.state == "Running" and inc > 0 and abs(db - inc) > 1e-6 and not fault_tick:
                         viol("block:stalled-while-running", "tick %d: Running before and after, inc=%r but Block Time moved %r" % (o.no, inc, db))
                 if not scope_ev:
                     if ds > EPS and prev_state != "Running":
@@ -193,7 +200,7 @@ def run_case(case):
                         viol("decrease:Scope Time", "tick %d: Scope Time %r -> %r without scope event" % (o.no, prev["Scope Time"], cur["Scope Time"]))
                     if ds > EPS and abs(ds - inc) > 1e-6:
                         viol("scope:delta", "tick %d: Scope Time advanced by %r, increment was %r" % (o.no, ds, inc))
-                    if root_was_open and prev_state == "Running" and o.state == "Running" and inc > 0 and abs(ds - inc) > 1e-6:
+                    if root_was_open and prev_state == "Running" and o.state == "Running" and inc > 0 and abs(ds - inc) > 1e-6 and not fault_tick:
                         viol("scope:stalled-while-running", "tick %d: Running before and after, inc=%r but Scope Time moved %r" % (o.no, inc, ds))
             prev, prev_state = cur, o.state
     finally:
@@ -222,6 +229,8 @@ def run_shard(col, cfg):
             classes.append("has-block-events")
         if info.get("faults"):
             classes.append("has-fault")
+        if info.get("run_time_moved_while_restarting"):
+            classes.append("run-time-moved-while-restarting(counted, not judged)")
         if info.get("error_while_holding"):
             classes.append("error-pause-began-while-holding")
         kinds = G.count_kinds(case["tree"])
